@@ -15,21 +15,46 @@ from . import core, programs
 
 FORMS = ["whole", "names", "both"]
 PLACES = ["before", "between", "after"]
+# module kinds: "full" exports a list, a counter closure, a scalar and a type alias; "effects" has NO export statement
+# at all (imported for its side effects only); "types" exports only a type alias (nothing at run time)
+KINDS = ["full", "effects", "types"]
+# import forms that are legal for a target of each kind
+#   type   : import type T_j from mj                      (names form with no value name)
+#   tnames : import type T_j, log_j, tick_j, val_j from mj (mixed)
+#   wtype  : import mj ; import type T_j from mj           (the same module imported twice by one importer)
+LEGAL = {"full": ["whole", "names", "both", "type", "tnames", "wtype"], "effects": ["whole"], "types": ["whole", "type", "wtype"]}
 
 
 # ---------------------------------------------------------------- projects
-# a project: {"n": modules m0..m(n-1), "imports": {k: [(j, form, place, spelling)] in statement order}, "dirs": {k: ""|"lib"}}
+# a project: {"n": modules m0..m(n-1), "imports": {k: [(j, form, place, spelling)] in statement order}, "dirs": {k: ""|"lib"},
+#             "kinds": {k: kind}}   (module 0, the entry, is always "full")
 
-def uses(k, j, form):
+def kind_of(proj, k):
+    return proj.get("kinds", {}).get(k, "full")
+
+
+def uses(k, j, form, jkind="full"):
     """(source lines, model actions) observing module j from module k through `form`"""
     log, tick, val = "log_%d" % j, "tick_%d" % j, "val_%d" % j
     L, T, V = 10 * j + 1, 10 * j + 2, 10 * j + 3
-    if form == "whole":
+    tvar = ["tv_%d_%d: T_%d = %d" % (k, j, j, j), 'print "m%d:%d"' % (k, 50 + j)]      # uses the imported type; prints a marker
+    tact = ["Effect %d" % (50 + j)]
+    if form == "whole" and jkind != "full":
+        return ['print "m%d:%d"' % (k, 60 + j)], ["Effect %d" % (60 + j)]
+    if form == "type":
+        return tvar, tact
+    if form == "wtype" and jkind != "full":
+        return tvar + ['print "m%d:%d"' % (k, 60 + j)], tact + ["Effect %d" % (60 + j)]
+    if form in ("whole", "wtype"):
         src = ['m%d.%s.push("m%d")' % (j, log, k), "print m%d.%s" % (j, log), "print m%d.%s()" % (j, tick), "print m%d.%s" % (j, val)]
         act = ["Push (ViaModule %d) %d %d" % (j, L, k), "ShowList (ViaModule %d) %d" % (j, L), "Call (ViaModule %d) %d" % (j, T), "ShowInt (ViaModule %d) %d" % (j, V)]
-    elif form == "names":
+        if form == "wtype":
+            src, act = src + tvar, act + tact
+    elif form in ("names", "tnames"):
         src = ['%s.push("m%d")' % (log, k), "print %s" % log, "print %s()" % tick, "print %s" % val]
         act = ["Push ViaLocal %d %d" % (L, k), "ShowList ViaLocal %d" % L, "Call ViaLocal %d" % T, "ShowInt ViaLocal %d" % V]
+        if form == "tnames":
+            src, act = src + tvar, act + tact
     else:
         src = ['m%d.%s.push("m%d")' % (j, log, k), "print %s" % log, "print %s()" % tick, "print m%d.%s()" % (j, tick),
                '%s.push("m%d")' % (log, k), "print m%d.%s" % (j, log), "print %s" % val]
@@ -39,13 +64,20 @@ def uses(k, j, form):
 
 
 def import_stmts(j, form, spelling):
-    """(source lines, model actions) of the import statement(s)"""
+    """(source lines, model actions) of the import statement(s); a type name binds nothing at run time, so
+    `import type T from m` is the names form with an empty list of value names - it still executes module_entry"""
     names = "log_%d, tick_%d, val_%d" % (j, j, j)
     nm = "Names [%d; %d; %d]" % (10 * j + 1, 10 * j + 2, 10 * j + 3)
     if form == "whole":
         return ["import %s" % spelling], ["Import %d Whole" % j]
     if form == "names":
         return ["import %s from %s" % (names, spelling)], ["Import %d (%s)" % (j, nm)]
+    if form == "type":
+        return ["import type T_%d from %s" % (j, spelling)], ["Import %d (Names [])" % j]
+    if form == "tnames":
+        return ["import type T_%d, %s from %s" % (j, names, spelling)], ["Import %d (%s)" % (j, nm)]
+    if form == "wtype":
+        return ["import %s" % spelling, "import type T_%d from %s" % (j, spelling)], ["Import %d Whole" % j, "Import %d (Names [])" % j]
     return ["import %s" % spelling, "import %s from %s" % (names, spelling)], ["Import %d Whole" % j, "Import %d (%s)" % (j, nm)]
 
 
@@ -53,6 +85,7 @@ def module_text(proj, k):
     """source text and model action list of module k"""
     src, act = [], []
     imps = proj["imports"].get(k, [])
+    kind = kind_of(proj, k)
 
     def place(p):
         for (j, form, pl, sp) in imps:
@@ -62,24 +95,27 @@ def module_text(proj, k):
             src.extend(s)
             act.extend(a)
             if p != "before":
-                s, a = uses(k, j, form)
+                s, a = uses(k, j, form, kind_of(proj, j))
                 src.extend(s)
                 act.extend(a)
 
     place("before")
     src.append('print "m%d:1"' % k)
     act.append("Effect 1")
-    src.append('export log_%d: [str...] = ["m%d"]' % (k, k))
-    act.append("ExportList %d %d" % (10 * k + 1, k))
-    # the counter is named per module: a same-named variable of the CALLING module would be found first by `load`
-    # (dynamic scoping, finding F1 of C01/C07) and confound what this check observes
-    src += ["counter_%d = 0" % k, "export tick_%d: fn() -> int = fn() -> int {" % k, "\tmodify counter_%d = counter_%d + 1" % (k, k), "\treturn counter_%d" % k, "}"]
-    act.append("ExportCounter %d" % (10 * k + 2))
-    src.append("export val_%d: int = %d" % (k, 100 + k))
-    act.append("ExportInt %d %d" % (10 * k + 3, 100 + k))
+    if kind == "full":
+        src.append('export log_%d: [str...] = ["m%d"]' % (k, k))
+        act.append("ExportList %d %d" % (10 * k + 1, k))
+        # the counter is named per module: a same-named variable of the CALLING module would be found first by `load`
+        # (dynamic scoping, finding F1 of C01/C07) and confound what this check observes
+        src += ["counter_%d = 0" % k, "export tick_%d: fn() -> int = fn() -> int {" % k, "\tmodify counter_%d = counter_%d + 1" % (k, k), "\treturn counter_%d" % k, "}"]
+        act.append("ExportCounter %d" % (10 * k + 2))
+        src.append("export val_%d: int = %d" % (k, 100 + k))
+        act.append("ExportInt %d %d" % (10 * k + 3, 100 + k))
+    if kind in ("full", "types"):
+        src.append("export type T_%d int" % k)          # compile-time only: no run-time export, no model action
     for (j, form, pl, sp) in imps:
         if pl == "before":
-            s, a = uses(k, j, form)
+            s, a = uses(k, j, form, kind_of(proj, j))
             src.extend(s)
             act.extend(a)
     place("between")
@@ -106,7 +142,8 @@ def materialize(proj):
     return files, coq
 
 
-# the property, stated independently of the Coq model: one instance per module, initialised at first import
+# the property, stated independently of the Coq model: one instance per module, initialised when the first import
+# statement naming it executes - whatever that statement imports (a module value, values, only types)
 def spec_output(proj):
     out = []
     inst = {}
@@ -120,19 +157,29 @@ def spec_output(proj):
 
         def use(j, form):
             o = inst[j]
-            if form in ("whole", "names"):
+            full = kind_of(proj, j) == "full"
+
+            def push_show_tick(n_ticks=1):
                 o["log"].append("m%d" % k)
                 out.append(fmt_list(o["log"]))
-                o["tick"] += 1
-                out.append(str(o["tick"]))
+                for _ in range(n_ticks):
+                    o["tick"] += 1
+                    out.append(str(o["tick"]))
+
+            if form == "whole" and not full:
+                out.append("m%d:%d" % (k, 60 + j))
+            elif form == "type":
+                out.append("m%d:%d" % (k, 50 + j))
+            elif form == "wtype" and not full:
+                out.append("m%d:%d" % (k, 50 + j))
+                out.append("m%d:%d" % (k, 60 + j))
+            elif form in ("whole", "names", "tnames", "wtype"):
+                push_show_tick()
                 out.append(str(100 + j))
+                if form in ("tnames", "wtype"):
+                    out.append("m%d:%d" % (k, 50 + j))
             else:
-                o["log"].append("m%d" % k)
-                out.append(fmt_list(o["log"]))
-                o["tick"] += 1
-                out.append(str(o["tick"]))
-                o["tick"] += 1
-                out.append(str(o["tick"]))
+                push_show_tick(2)
                 o["log"].append("m%d" % k)
                 out.append(fmt_list(o["log"]))
                 out.append(str(100 + j))
@@ -184,7 +231,7 @@ def gen_projects(ctx):
         imports = {}
         for (i, j, form, pl) in edges:
             imports.setdefault(i, []).append((j, form, pl, "m%d" % j))
-        projs.append({"n": n, "imports": imports, "dirs": {}, "stream": stream, "entry_spelling": "m0.ms"})
+        projs.append({"n": n, "imports": imports, "dirs": {}, "kinds": {}, "stream": stream, "entry_spelling": "m0.ms"})
 
     # ---- exhaustive: 3 modules, every DAG x form x placement per edge, both orders of m0's two imports
     pairs3 = [(0, 1), (0, 2), (1, 2)]
@@ -202,12 +249,26 @@ def gen_projects(ctx):
             edges = [(i, j, c, rng.choice(PLACES)) for (i, j), c in zip(pairs4, choice) if c]
             rng.shuffle(edges)
             add(4, edges, "exhaustive-4")
-    # ---- random: 5 modules
+    # ---- module kinds x import forms, 3 modules: every kind of m1, m2 x every DAG x every LEGAL form per edge
+    #      (export-less and type-only modules in diamonds; type-only / mixed / repeated imports); placement random
+    for k1, k2 in itertools.product(KINDS, repeat=2):
+        kinds = {0: "full", 1: k1, 2: k2}
+        per_edge = [[None] + LEGAL[kinds[j]] for (i, j) in pairs3]
+        for choice in itertools.product(*per_edge):
+            if (k1, k2) == ("full", "full") and all(c in (None, "whole", "names", "both") for c in choice):
+                continue                      # already in exhaustive-3
+            edges = [(i, j, c, rng.choice(PLACES)) for (i, j), c in zip(pairs3, choice) if c]
+            rng.shuffle(edges)
+            add(3, edges, "kinds-3")
+            projs[-1]["kinds"] = kinds
+    # ---- random: 4-5 modules, random kinds, legal forms
     for _ in range(300 if ctx.quick() else 1500):
-        n = 5
-        edges = [(i, j, rng.choice(FORMS), rng.choice(PLACES)) for i in range(n) for j in range(i + 1, n) if rng.random() < 0.55]
+        n = rng.choice([4, 5, 5])
+        kinds = {k: ("full" if k == 0 else rng.choice(["full", "full", "effects", "types"])) for k in range(n)}
+        edges = [(i, j, rng.choice(LEGAL[kinds[j]]), rng.choice(PLACES)) for i in range(n) for j in range(i + 1, n) if rng.random() < 0.6]
         rng.shuffle(edges)
         add(n, edges, "random-5")
+        projs[-1]["kinds"] = kinds
     # ---- path spellings: the same module spelled differently by different importers; sub-directory modules
     n_main = len(projs)
     for _ in range(60 if ctx.quick() else 400):
@@ -228,7 +289,7 @@ def gen_projects(ctx):
                     imports.setdefault(i, []).append((j, rng.choice(FORMS), rng.choice(PLACES), sp))
         for i in imports:
             rng.shuffle(imports[i])
-        projs.append({"n": n, "imports": imports, "dirs": dirs, "stream": "spelling",
+        projs.append({"n": n, "imports": imports, "dirs": dirs, "kinds": {}, "stream": "spelling",
                       "entry_spelling": rng.choice(["m0.ms", "./m0.ms"])})
     return projs, n_main
 
@@ -284,7 +345,8 @@ def run(ctx):
     preds = [x for sh in programs.pmap(lambda a: model_eval(a[0], a[1], 7), list(enumerate(shards))) for x in sh]
 
     spec_fail = dis = nontrivial = 0
-    dist = {"stream": {}, "modules_reached": {}, "edges": {}, "form": {}, "place": {}, "diamonds": 0}
+    dist = {"stream": {}, "modules_reached": {}, "edges": {}, "form": {}, "place": {}, "diamonds": 0,
+            "shared_target_kind": {}, "projects_with_type_only_import": 0}
     for idx, (p, (files, coq), (r1, c, r2), pred) in enumerate(zip(projs, mats, results, preds)):
         exp, reached = spec_output(p)
         dist["stream"][p["stream"]] = dist["stream"].get(p["stream"], 0) + 1
@@ -299,10 +361,16 @@ def run(ctx):
                     dist["form"][form] = dist["form"].get(form, 0) + 1
                     dist["place"][pl] = dist["place"].get(pl, 0) + 1
         shared = any(v >= 2 for v in indeg.values())
+        if any(form == "type" for k, v in p["imports"].items() if k in reached for (j, form, pl, sp) in v):
+            dist["projects_with_type_only_import"] += 1
+        for j, v in indeg.items():
+            if v >= 2:
+                kd = kind_of(p, j)
+                dist["shared_target_kind"][kd] = dist["shared_target_kind"].get(kd, 0) + 1
         if shared:
             dist["diamonds"] += 1
             nontrivial += 1
-        replay = {"project": {k: p[k] for k in ("n", "imports", "dirs", "stream", "entry_spelling")}, "files": files,
+        replay = {"project": {k: p[k] for k in ("n", "imports", "dirs", "kinds", "stream", "entry_spelling")}, "files": files,
                   "expected_stdout": exp, "how": "write the files, `mscript run <entry> -q` / `mscript compile <entry> --quick; mscript execute <entry>.mmm`"}
         spell = p["stream"] == "spelling"
         modes = [("run", r1)] + ([("execute", r2)] if r2 is not None else [])
@@ -323,6 +391,10 @@ def run(ctx):
                 elif twice:
                     cls = "module-initialised-twice"
                     what = "top level ran more than once (%s): %s" % (mode, ", ".join(twice))
+                elif any(l.endswith(":1") and l not in got for l in exp):
+                    cls = "module-not-initialised-by-import"
+                    what = "an executed import statement did not run the module's top level (%s): missing %s" % (
+                        mode, ", ".join(l for l in exp if l.endswith(":1") and l not in got))
                 elif r[0] != 0:
                     cls = "module-project-fails:" + mode
                     what = "exit %s under %s: %s" % (r[0], mode, r[2][-300:])
@@ -368,9 +440,11 @@ def run(ctx):
     ctx.cov["evaluations"] = len(projs) + neg
     ctx.cov["distinct_nontrivial"] = nontrivial
     ctx.cov["exhaustive"] = True
-    ctx.cov["exhaustive_part"] = ("3 modules: every DAG x {whole,names,both} x {before,between,after} per edge, both statement orders of the entry's two imports"
+    ctx.cov["exhaustive_part"] = ("3 modules: every DAG x {whole,names,both} x {before,between,after} per edge, both statement orders of the entry's two imports; "
+                                  "3 modules: every kind {full, no export at all, type alias only} of m1,m2 x every DAG x every legal form "
+                                  "{import m, names, both, import type T, import type T + names, import m + import type T} per edge"
                                   + ("" if ctx.quick() else "; 4 modules: every DAG x form per edge (placement/order random)"))
-    ctx.cov["rule"] = ("a case = one project run twice (in memory, from files); streams: exhaustive-3, exhaustive-4 (thorough), random 5-module DAGs, "
+    ctx.cov["rule"] = ("a case = one project run twice (in memory, from files); streams: exhaustive-3, kinds-3, exhaustive-4 (thorough), random 4-5-module DAGs with random module kinds, "
                        "path spellings (./m, ././m, m.ms, lib/./m, entry as ./m0.ms), 7 rejected visibility programs; "
                        "non-trivial = a reached module is imported by at least two import sites (once-only / sharing is exercised)")
     ctx.cov["distribution"] = dist
